@@ -5,6 +5,8 @@ import (
 	"encoding/json"
 	"errors"
 	"fmt"
+	"image"
+	"image/jpeg"
 	"io"
 	"os"
 	"path/filepath"
@@ -56,10 +58,11 @@ const (
 	opDecodeB          // Decode as the second Go type (*ViewB)
 	opDecodeExclusiveB // DecodeExclusive as the second Go type
 	opFailingGet       // not an operation of the lists: a phase of failing Gets on the hand-written bad file
+	opImageEarlyClose  // open the Flate-under-DCT image, read 16 bytes, close
 	nOpKinds
 )
 
-var opKindNames = []string{"Get", "DecodeStream", "Decode", "DecodeExclusive", "StoreOrLoadPair", "predefined-CMap", "own-Writer+Reader", "Decode-ViewB", "DecodeExclusive-ViewB", "failing-Get"}
+var opKindNames = []string{"Get", "DecodeStream", "Decode", "DecodeExclusive", "StoreOrLoadPair", "predefined-CMap", "own-Writer+Reader", "Decode-ViewB", "DecodeExclusive-ViewB", "failing-Get", "image-early-close"}
 
 type stressOp struct {
 	kind int
@@ -80,6 +83,8 @@ type stressFile struct {
 	password string
 	// damaged: Flate streams with a wrong or missing zlib trailer
 	damaged map[pdf.Reference]string
+	// image: a stream with /Filter [/FlateDecode /DCTDecode]
+	image pdf.Reference
 }
 
 func compressible(r *vt.Rand, n int) []byte {
@@ -231,6 +236,27 @@ func buildStressFile(seed uint64) (*stressFile, error) {
 	// without error, see flatepool_test.go), the stream cut in front of the
 	// trailer returns the data and an error.  What they return must not
 	// depend on which zlib readers other goroutines have put into the pool.
+	// an image: JPEG data inside FlateDecode.  Its decoder runs a producer
+	// goroutine on top of the Flate layer; operations close it early.
+	{
+		img := image.NewGray(image.Rect(0, 0, 1024, 64))
+		copy(img.Pix, r.Bytes(len(img.Pix)))
+		var jbuf bytes.Buffer
+		if err := jpeg.Encode(&jbuf, img, &jpeg.Options{Quality: 90}); err != nil {
+			return nil, err
+		}
+		f.image = w.Alloc()
+		stm, err := w.OpenStream(f.image, pdf.Dict{"Filter": pdf.Array{pdf.Name("FlateDecode"), pdf.Name("DCTDecode")}})
+		if err != nil {
+			return nil, err
+		}
+		if _, err := stm.Write(damagedFlate(jbuf.Bytes(), "good")); err != nil {
+			return nil, err
+		}
+		if err := stm.Close(); err != nil {
+			return nil, err
+		}
+	}
 	for _, kind := range []string{"bad-adler", "cut-before-trailer"} {
 		body := compressible(r, 200+r.Intn(3000))
 		ref := w.Alloc()
@@ -471,6 +497,22 @@ func (s *stressRun) do(g int, op stressOp) (res stressResult) {
 			return fail(fmt.Errorf("DecodeStream(%v): %d bytes read, differ from the %d bytes written", ref, len(data), len(s.f.bodies[ref])))
 		}
 		res.sum = vt.HashBytes(data)
+	case opImageEarlyClose:
+		stm, err := getStream(s.rd, s.f.image)
+		if err != nil {
+			return fail(err)
+		}
+		rc, err := pdf.DecodeStream(s.rd, nil, stm)
+		if err != nil {
+			return fail(err)
+		}
+		head := make([]byte, 16)
+		_, err = io.ReadFull(rc, head)
+		cerr := rc.Close()
+		if err != nil || cerr != nil {
+			return fail(fmt.Errorf("image: read error %v, close error %v", err, cerr))
+		}
+		res.sum = vt.HashBytes(head)
 	case opDecode:
 		ref := s.f.target[stressTargets[op.arg]]
 		v, err := pdf.Decode(pdf.CursorAt(s.x, nil), ref, s.fnA(g, &res.ranFn, nil))
@@ -868,7 +910,7 @@ var stressProp = &vt.Prop[StressCase]{
 			Seed:       rapid.Uint64().Draw(t, "seed"),
 			Goroutines: rapid.IntRange(8, 32).Draw(t, "goroutines"),
 			Ops:        rapid.IntRange(2, 12).Draw(t, "ops"),
-			Mix:        rapid.OneOf(rapid.Just((1<<nOpKinds)-1), rapid.Just(1<<opDecode|1<<opDecodeExclusive|1<<opPair|1<<opDecodeB|1<<opDecodeExclusiveB), rapid.Just(1<<opDecodeExclusive|1<<opDecodeExclusiveB), rapid.Just(1<<opGet|1<<opStream), rapid.Just(1<<opGet|1<<opStream|1<<opFailingGet), rapid.IntRange(1, (1<<nOpKinds)-1)).Draw(t, "mix"),
+			Mix:        rapid.OneOf(rapid.Just((1<<nOpKinds)-1), rapid.Just(1<<opDecode|1<<opDecodeExclusive|1<<opPair|1<<opDecodeB|1<<opDecodeExclusiveB), rapid.Just(1<<opDecodeExclusive|1<<opDecodeExclusiveB), rapid.Just(1<<opGet|1<<opStream), rapid.Just(1<<opStream|1<<opImageEarlyClose), rapid.Just(1<<opGet|1<<opStream|1<<opFailingGet), rapid.IntRange(1, (1<<nOpKinds)-1)).Draw(t, "mix"),
 		}
 	},
 	Check: checkStress,
